@@ -7,10 +7,16 @@ use chumsky::error::Cheap;
 use chumsky::extra;
 use chumsky::prelude::*;
 
-static mut LIVE: i32 = 0;
-static mut NEXT: u32 = 0;
-static mut DROPPED: u64 = 0;
-static mut DOUBLE: bool = false;
+// NOTE: the initial values are deliberately NOT zero. Kani 0.68 merges a `static mut` whose initial bytes equal those
+// of an anonymous constant allocation with that constant: with `static mut DROPPED: u64 = 0` a write to DROPPED also
+// changed `alloc::raw_vec::ZERO_CAP` (a zero usize), and every empty `Vec` was then "deallocated" with capacity 1 —
+// spurious `__rust_dealloc` failures in every harness of this module (Miri-clean natively; found from the CBMC
+// trace: `RawVecInner::new_in` returned cap = 1 right after a `D` with id 0 had been dropped). `reset()` sets the
+// real start values at run time.
+static mut LIVE: i32 = 0x5EED_0001;
+static mut NEXT: u32 = 0x5EED_0002;
+static mut DROPPED: u64 = 0x5EED_0003_5EED_0004;
+static mut DOUBLE: bool = true;
 
 fn reset() {
     unsafe {
